@@ -24,7 +24,7 @@ import uuid
 
 import numpy as np
 
-from ..data import Data, DataType, FloatData, NumericData
+from ..data import Data, DataType, FloatData, NumericData, TextData
 from ..groups import PropertyGroup
 from ..shared.utils import box_intersect, mask_by_extent, merge_arrays
 from .object_base import ObjectType
@@ -687,13 +687,19 @@ class Drillhole(Points):
 
         input_values = np.r_[values]
 
+        def no_data(count):
+            """Entries for the vertices the values are not given for."""
+            if input_values.dtype.kind in ["U", "S", "O"]:
+                return np.array([""] * count, dtype=object)
+            return np.ones(count) * np.nan
+
         if self.depths is None:
             self.add_vertices(self.desurvey(depth))
             self.depths = np.r_[
                 np.ones(self.n_vertices - depth.shape[0]) * np.nan, depth
             ]
             values = np.r_[
-                np.ones(self.n_vertices - input_values.shape[0]) * np.nan, input_values
+                no_data(self.n_vertices - input_values.shape[0]), input_values
             ]
         else:
             depths, indices = merge_arrays(
@@ -703,7 +709,7 @@ class Drillhole(Points):
                 collocation_distance=collocation_distance,
             )
             values = merge_arrays(
-                np.ones(self.n_vertices) * np.nan,
+                no_data(self.n_vertices),
                 input_values,
                 replace="B->A",
                 mapping=indices,
@@ -774,11 +780,17 @@ class Drillhole(Points):
                 sort_ind = np.argsort(depths)
 
                 for child in self.children:
-                    if (
-                        isinstance(child, NumericData)
-                        and getattr(child.association, "name", None) == "VERTEX"
-                    ):
+                    if getattr(child.association, "name", None) != "VERTEX":
+                        continue
+
+                    if isinstance(child, NumericData):
                         child.values = child.format_values(child.values)[sort_ind]
+                    elif isinstance(child, TextData) and isinstance(
+                        child.values, np.ndarray
+                    ):
+                        text = np.array([""] * len(sort_ind), dtype=object)
+                        text[: len(child.values)] = child.values
+                        child.values = text[sort_ind]
 
                 if self.vertices is not None:
                     self.vertices = self.vertices[sort_ind, :]
